@@ -196,6 +196,17 @@ for k, v in EXTRA15.items():
     if k in P:
         P[k]["text"] += v
 
+# round 16 (DESIGN.md 8.6)
+EXTRA16 = {
+ "C06": " The encoder's exported Add*(.., value string) helpers, which user marshallers call, quote the value on every colored-mode path (R06.7).",
+ "C07": " No member of the attribute list is overwritten in place between the sort and the emission (R07.4).",
+ "C12": " The interrupt flags are read after the record is written (R12.2).",
+ "C16": " An element of SetTimeFormat's argument list reaches the stored layout only under a non-emptiness test of that element (R16.4); the slice AppendFormat returns is what lands in the record (R16.3).",
+}
+for k, v in EXTRA16.items():
+    if k in P:
+        P[k]["text"] += v
+
 checks, na = [], []
 ids = [json.loads(l)["id"] for l in open(os.path.join(V, "properties.jsonl"))]
 for pid in ids:
